@@ -669,64 +669,73 @@ def pathOfL : TL → Nat → List Nat → Nat → Option (List Nat)
       | none => pathOfL ts n path (i + 1)
 end
 
+mutual
+/-- the subtree at a path of child indices -/
+def subAt : T → List Nat → Option T
+  | t, [] => some t
+  | .node _ cs, i :: p => subAtL cs i p
+def subAtL : TL → Nat → List Nat → Option T
+  | .nil, _, _ => none
+  | .cons t _, 0, p => subAt t p
+  | .cons _ ts, i + 1, p => subAtL ts i p
+end
+
+/-- is the node at `p` a DummyAction in state running? -/
+def runningDummyAt (t : T) (p : List Nat) : Bool :=
+  match subAt t p with
+  | some s => s.data.kind == .dummy && s.data.st == .running
+  | none => false
+
 /-- one control call of the script on the root (or an emit on a dummy leaf) -/
 def doCall (t : T) (g : G) : Call → T × G × Bool
   | .start => start t g
   | .pause => pause t g
   | .resume => resume t g
-  | .stop => let (t', g') := stop t g; (t', g', true)
-  | .reset => let (t', g') := reset t g; (t', g', true)
+  | .stop => ((stop t g).1, (stop t g).2, true)
+  | .reset => ((reset t g).1, (reset t g).2, true)
   | .emitFin n s =>
       match pathOf t n [] with
       | none => (t, g, false)
       | some p =>
-        let isRunDummy : Bool := nodeIs t p
-        if isRunDummy then
-          let (t', g') := modifyAt t p (fun d cs g => let (d', cs', g', _) := finish d cs g s 0; (d', cs', g')) g
-          (t', g', true)
+        if runningDummyAt t p then
+          ((modifyAt t p (fun d cs g => finish3 d cs g s 0) g).1, (modifyAt t p (fun d cs g => finish3 d cs g s 0) g).2, true)
         else (t, g, false)
   | .emitBlk n =>
       match pathOf t n [] with
       | none => (t, g, false)
       | some p =>
-        if nodeIs t p then
-          let (t', g') := modifyAt t p (fun d cs g => let (d', g', _) := block d g 0; (d', cs, g')) g
-          (t', g', true)
+        if runningDummyAt t p then
+          ((modifyAt t p (fun d cs g => ((block d g 0).1, cs, (block d g 0).2.1)) g).1,
+           (modifyAt t p (fun d cs g => ((block d g 0).1, cs, (block d g 0).2.1)) g).2, true)
         else (t, g, false)
-where
-  /-- is the node at `p` a DummyAction in state running? -/
-  nodeIs (t : T) (p : List Nat) : Bool :=
-    match nodeAt t p with
-    | some d => d.kind == .dummy && d.st == .running
-    | none => false
-  nodeAt : T → List Nat → Option Node
-    | .node d _, [] => some d
-    | .node _ cs, i :: p => match cs.get? i with
-        | some c => nodeAt c p
-        | none => none
 
 def doCalls (t : T) (g : G) (calls : List Call) : T × G × List Bool :=
-  calls.foldl (fun (p : T × G × List Bool) c => let (t', g', r) := doCall p.1 p.2.1 c; (t', g', p.2.2 ++ [r])) (t, g, [])
+  calls.foldl (fun (p : T × G × List Bool) c => ((doCall p.1 p.2.1 c).1, (doCall p.1 p.2.1 c).2.1, p.2.2 ++ [(doCall p.1 p.2.1 c).2.2])) (t, g, [])
+
+/-- a task posted by the script itself: every call's result is reported as it is made -/
+def runUser (t : T) (g : G) (calls : List Call) : T × G :=
+  calls.foldl (fun (q : T × G) c => ((doCall q.1 q.2 c).1, (doCall q.1 q.2 c).2.1.emit (.ret (doCall q.1 q.2 c).2.2))) (t, g)
+
+/-- one item of the batch: a task of the script, or a queued task of the tree -/
+def runItem (t : T) (g : G) (id : Nat) : T × G :=
+  match g.user.find? (fun u => u.1 == id) with
+  | some (_, calls) => runUser t { g with user := g.user.filter (fun u => u.1 != id) } calls
+  | none => runTask t g id
 
 /-- `handleNextFunc`: the batch queued so far, in FIFO (= id) order; tasks posted meanwhile wait -/
 def runQueue (t : T) (g : G) : T × G :=
   let ids := sortBy (((allTasks t []).map fun x => (x.1, ())) ++ (g.user.map fun x => (x.1, ())))
-  ids.foldl (fun (p : T × G) x =>
-    let (t, g) := p
-    match g.user.find? (fun u => u.1 == x.1) with
-    | some (_, calls) =>
-        let g := { g with user := g.user.filter (fun u => u.1 != x.1) }
-        -- every call's result is reported as it is made
-        calls.foldl (fun (q : T × G) c => let (t', g', r) := doCall q.1 q.2 c; (t', g'.emit (.ret r))) (t, g)
-    | none => runTask t g x.1) (t, g)
+  ids.foldl (fun (p : T × G) x => runItem p.1 p.2 x.1) (t, g)
+
+/-- one due timer: it fires if it is still armed with that deadline -/
+def fireOne (t : T) (g : G) (dl : Nat) (path : List Nat) (isSleep : Bool) : T × G :=
+  modifyAt t path (fun d cs g =>
+    if (if isSleep then d.sleepAt else d.tmoAt) == some dl then onTimer d cs g isSleep else (d, cs, g)) g
 
 /-- `handleExpiredTimers`: due timers in deadline order (a timer disarmed meanwhile does not fire) -/
 def fireTimers (t : T) (g : G) : T × G :=
   let due := sortBy ((allTimers t []).filter (fun x => x.1 ≤ g.now))
-  due.foldl (fun (p : T × G) x =>
-    let (dl, path, isSleep) := x
-    modifyAt p.1 path (fun d cs g =>
-      if (if isSleep then d.sleepAt else d.tmoAt) == some dl then onTimer d cs g isSleep else (d, cs, g)) p.2) (t, g)
+  due.foldl (fun (p : T × G) x => fireOne p.1 p.2 x.1 x.2.1 x.2.2) (t, g)
 
 /-- script operations; each is followed by the rest of the loop pass (`runQueue`) and the timer
 phase of the next one (`fireTimers`) -/
@@ -744,13 +753,13 @@ def applyOp (t : T) (g : G) : Op → T × G × List Bool
   | .pass => (t, g, [])
 
 def step (t : T) (g : G) (op : Op) : T × G × List Bool :=
-  let (t1, g1, rs) := applyOp t g op
-  let (t2, g2) := runQueue t1 g1
-  let (t3, g3) := fireTimers t2 g2
-  (t3, g3, rs)
+  let a := applyOp t g op
+  let q := runQueue a.1 a.2.1
+  let f := fireTimers q.1 q.2
+  (f.1, f.2, a.2.2)
 
 def run (t : T) (g : G) : List Op → T × G
   | [] => (t, g)
-  | op :: ops => let (t', g', _) := step t g op; run t' g' ops
+  | op :: ops => run (step t g op).1 (step t g op).2.1 ops
 
 end Tbox.C17
